@@ -137,7 +137,8 @@ class TimeIt:
     self._end_time: Optional[float] = None
     self._child_contexts: List[TimeIt] = []
     self._error: Optional[error_utils.ErrorInfo] = None
-    self._parent: Optional[TimeIt] = None
+    # NOTE: the contexts that were current at each (possibly nested) entry.
+    self._parents: List[Optional[TimeIt]] = []
 
   @property
   def name(self) -> str:
@@ -227,9 +228,9 @@ class TimeIt:
   def __enter__(self):
     parent = thread_local.thread_local_get('__timing_context__', None)
     # NOTE: the parent is recorded at every entry (a `TimeIt` object could be
-    # entered again in another scope), as `__exit__` restores it.
-    self._parent = parent
-    if parent is not None:
+    # entered again, also while it is active), as `__exit__` restores it.
+    self._parents.append(parent)
+    if parent is not None and parent is not self:
       parent.add(self)
     thread_local.thread_local_set('__timing_context__', self)
     self.start()
@@ -237,11 +238,14 @@ class TimeIt:
 
   def __exit__(self, exc_type, exc_value, traceback):
     del exc_type, traceback
-    self.end(exc_value)
-    if self._parent is None:
-      thread_local.thread_local_del('__timing_context__')
-    else:
-      thread_local.thread_local_set('__timing_context__', self._parent)
+    try:
+      self.end(exc_value)
+    finally:
+      parent = self._parents.pop()
+      if parent is None:
+        thread_local.thread_local_del('__timing_context__')
+      else:
+        thread_local.thread_local_set('__timing_context__', parent)
 
 
 def timeit(name: str = '') -> TimeIt:
